@@ -197,4 +197,34 @@ Proof.
   intro H. cbn. apply N.ltb_lt in H. now rewrite H.
 Qed.
 
+(* ---- the name of a file created by this run is the name of the first OOpen --------------- *)
+Fixpoint first_open (ops : list (wop K D NM)) : option NM :=
+  match ops with
+  | [] => None
+  | OOpen nm :: _ => Some nm
+  | _ :: t => first_open t
+  end.
+
+Lemma run_first_open ops : forall st' rs f,
+  run init ops = (st', rs) -> all_ok rs = true -> s_file st' = Some f ->
+  first_open ops = Some (f_name f) /\ f_ver f = Version3 /\ nmlen (f_name f) <= MaxNameSize.
+Proof.
+  induction ops as [|op ops IH]; intros st' rs f.
+  - cbn. intro H; inversion H; subst. cbn. discriminate.
+  - cbn [Writer.run]. destruct (step init op) as [st1 r] eqn:E1.
+    destruct (run st1 ops) as [st2 rs2] eqn:E2. intro H; inversion H; subst.
+    cbn [all_ok forallb]. intro Hok. apply andb_true_iff in Hok as [Hr Hrs]. intro Hf.
+    destruct op as [nm|e fl| | |]; cbn in E1.
+    + destruct (MaxNameSize <? nmlen nm) eqn:En; inversion E1; subst; [discriminate|].
+      cbn [first_open].
+      pose proof (run_name ops (mkS (Some (mkF Version3 nm 0 0 [])) (Some (mkW [] 0 0))) _ eq_refl) as [Hn Hv].
+      rewrite E2 in Hn, Hv. cbn [fst] in Hn, Hv. unfold name_of, ver_of in Hn, Hv.
+      rewrite Hf in Hn, Hv. cbn in Hn, Hv. inversion Hn as [Hn']; inversion Hv as [Hv'].
+      rewrite Hn'. apply N.ltb_ge in En. auto.
+    + inversion E1; subst. discriminate.
+    + inversion E1; subst. discriminate.
+    + inversion E1; subst. discriminate.
+    + inversion E1; subst. cbn [first_open]. now apply (IH st' rs2 f).
+Qed.
+
 End WriterProofs.
